@@ -237,8 +237,35 @@ pub fn reuse_line(a: &[u8], b: &[u8], ops: &[crate::svgops::Op]) -> String {
     }
 }
 
+/// `afterx <hex> <e|-> => b:<digest of the build made after two CAUGHT panicking builds on the same thread>:<digest of the build alone>`
+pub fn afterx_line(input: &[u8], ecl: Option<usize>) -> String {
+    let head = format!("afterx {} {} => ", hex(input), opt(ecl));
+    let o = Opts { ecl, mode: None, version: None, mask: None };
+    let a = input.to_vec();
+    let seq = std::thread::spawn(move || {
+        let _ = build(b"0123x", Opts { ecl: None, mode: Some(0), version: None, mask: None });
+        let _ = build(b"hello, lowercase", Opts { ecl: Some(0), mode: Some(1), version: None, mask: None });
+        outcome_full(&build(&a, o))
+    })
+    .join();
+    let b = input.to_vec();
+    let alone = std::thread::spawn(move || outcome_full(&build(&b, o))).join();
+    match (seq, alone) {
+        (Ok(x), Ok(y)) => format!("{}b:{:016x}:{:016x}", head, fnv(&x), fnv(&y)),
+        _ => format!("{}trap thread", head),
+    }
+}
+
 pub fn gen(out: &mut crate::gen::Out, rng: &mut Rng, thorough: bool) {
     let caps = crate::gen::caps();
+    for _ in 0..(if thorough { 200 } else { 20 }) {
+        let a = crate::gen::structured(rng);
+        if a.len() > 600 {
+            continue;
+        }
+        let e = if rng.chance(1, 2) { None } else { Some(rng.below(4)) };
+        out.job(move || afterx_line(&a, e));
+    }
     // one renderer object, two different QR codes (same size and different size)
     for k in 0..(if thorough { 200 } else { 24 }) {
         let a = crate::gen::structured(rng);
